@@ -94,6 +94,28 @@ InitShapes ==
      /\ count = S.count /\ live = S.live /\ f = S.f /\ avail = S.avail /\ retired = S.retired
      /\ gen = S.gen /\ val = S.val /\ capLow = S.capLow /\ tok = S.tok /\ nissued = S.nissued
      /\ path = pth /\ last = NoResult
+(***************************************************************************)
+(* Recycling after removal on every shape: for every ordered forest, every *)
+(* node x and both removal calls, remove x (or its subtree) and allocate   *)
+(* again until every freed slot is recycled; the bundle of the resulting   *)
+(* state is emitted.  Whatever a removal leaves behind in the freed slots  *)
+(* (invisible in the specification's state, and identified by the          *)
+(* breadth-first exploration) depends on the shape at removal time; these  *)
+(* bundles make every such shape the immediate history of recycled slots.  *)
+(***************************************************************************)
+RECURSIVE Refill(_, _)
+Refill(S, pth) == IF S.avail = <<>> THEN [st |-> S, pth |-> pth]
+                  ELSE LET c == [op |-> "new", a |-> Head(S.avail), v |-> S.nissued + 1]
+                       IN  Refill(Step(S, c).st, Append(pth, c))
+InitRecycled ==
+  \E k \in 1..MaxSlots : \E p \in ShapeVectors(k) : \E x \in 1..k : \E rop \in {"remove", "remove_subtree"} :
+     LET pth0 == Append(CanonPath(p, 1), [op |-> rop, a |-> x, r |-> {}])
+         R    == Refill(RunPath(InitState(0), pth0), pth0)
+         S    == R.st
+     IN
+     /\ count = S.count /\ live = S.live /\ f = S.f /\ avail = S.avail /\ retired = S.retired
+     /\ gen = S.gen /\ val = S.val /\ capLow = S.capLow /\ tok = S.tok /\ nissued = S.nissued
+     /\ path = R.pth /\ last = NoResult
 NextNone == FALSE /\ UNCHANGED vars
 
 Emit == /\ \A c \in GenCalls(State) : SameEffectU(State, c)
